@@ -64,22 +64,6 @@ theorem afind_append_new {l : List (UInt64 × Nat)} {k k' : UInt64} {id : Nat} (
       have : ((k, id).1 == k') = false := by simp; exact fun h => e h.symm
       simp [List.find?_cons, this]
 
-theorem eq_of_nodup_map {α β : Type} (f : α → β) : ∀ {l : List α}, (l.map f).Nodup →
-    ∀ {x y : α}, x ∈ l → y ∈ l → f x = f y → x = y := by
-  intro l
-  induction l with
-  | nil => intro _ x y hx; cases hx
-  | cons a t ih =>
-    intro hn x y hx hy e
-    simp only [List.map_cons, List.nodup_cons] at hn
-    rcases List.mem_cons.1 hx with hxa | hxt
-    · rcases List.mem_cons.1 hy with hya | hyt
-      · rw [hxa, hya]
-      · exact absurd (List.mem_map.2 ⟨y, hyt, by rw [← e, hxa]⟩) hn.1
-    · rcases List.mem_cons.1 hy with hya | hyt
-      · exact absurd (List.mem_map.2 ⟨x, hxt, by rw [e, hya]⟩) hn.1
-      · exact ih hn.2 hxt hyt e
-
 /-- well-formedness of a vector: keys pairwise distinct, ids pairwise distinct, ids in range -/
 structure VecInv (v : MVec) : Prop where
   keys : (v.children.map (·.1)).Nodup
